@@ -168,6 +168,10 @@ func vMswRun(t *testing.T) {
 			}
 		} else {
 			time.Sleep(time.Duration(park+70) * time.Millisecond)
+			// on a loaded machine the park goroutine may wake late: wait until the millisecond tables are empty (≤ 3 s more)
+			for w := 0; w < 300 && vMsPending(v.db); w++ {
+				time.Sleep(10 * time.Millisecond)
+			}
 			if g, ok := final(); ok {
 				obs = "fire"
 				out.monitor(px+":early:millisecond", fmt.Sprintf("%s with %d ms was ended after %v of wall time and 0 s of server time", what, T, g.at.Sub(t0)), replay)
@@ -228,6 +232,23 @@ func vMswRun(t *testing.T) {
 			}
 		}
 	}
+}
+
+// vMsPending: is any record still parked in a millisecond table of shard 0?
+func vMsPending(db *LockDB) bool {
+	db.managerGlocks[0].Lock()
+	defer db.managerGlocks[0].Unlock()
+	for _, q := range db.millisecondTimeoutLocks[0] {
+		if q != nil {
+			return true
+		}
+	}
+	for _, q := range db.millisecondExpriedLocks[0] {
+		if q != nil {
+			return true
+		}
+	}
+	return false
 }
 
 func strings_ReplaceDots(s string) string {
